@@ -9,7 +9,8 @@ The real TlsConfig (lib/tlspeers.TlsEnv, private confdir) produces the certifica
 Generated: SNI forms (1..4 labels, 63-char labels, names up to 253 chars, A-labels, U-labels, underscore, upper case,
 IPv4/IPv6 literals), no SNI with IPv4/IPv6/IPv4-mapped local addresses, server address forms (none, host, IDN, IP),
 upstream certificate (none / present; option upstream_cert on/off) with CN (host-like, wildcard, IP, organisation-like with
-spaces/non-ASCII, 64 chars, absent), SANs (DNS, wildcard, IP, e-mail, URI), organisation, CRL distribution point;
+spaces/non-ASCII, 64 chars, absent), SANs (DNS, wildcard, IP, IP literal as dNSName, e-mail, URI; often sharing names with
+the request identity in either GeneralName type / other case / as CN), organisation, CRL distribution point;
 CA flavours: mitmproxy's own generated CA, a custom intermediate CA (RFC 7093 SHA-256 SKI) below a root, a custom root
 without SKI.
 
@@ -86,13 +87,14 @@ _up_cn = st.one_of(st.none(), _ascii_host.map(_cn64), _plain_host, _plain_host.m
                    st.sampled_from(["Société Générale", "Example Server Certificate", "a" * 64, "a" * 63, "A B", "*", "localhost",
                                     "example.com.", "a..b", " ", "ex ample.com"]))
 _up_san = st.one_of(_ascii_host, _plain_host.map(lambda h: "*." + h), _ip.map(lambda i: "ip:" + i),
+                    _ip.map(lambda i: "dnsname:" + i),  # an IP literal in a dNSName SAN (routers / appliances do that)
                     st.sampled_from(["email:admin@example.com", "uri:https://example.com/x", "xn--bcher-kva.example", "*.*.example.com"]))
 _upstream = st.one_of(st.none(), st.fixed_dictionaries({
     "cn": _up_cn, "sans": st.lists(_up_san, max_size=4, unique=True), "org": _org,
     "crl": st.sampled_from([None, None, "http://crl.example.com/ca.crl", "ldap://x/y", "http://[::1", "https://crl.example.com:8443/a/b?c"]),
 }))
 
-_case = st.fixed_dictionaries({
+_base_case = st.fixed_dictionaries({
     "ca": st.sampled_from(["default", "default", "chain", "noski"]),
     "sni": st.one_of(st.none(), _sni, _sni, _sni),
     "sockname": st.one_of(st.just("127.0.0.1"), _ip),
@@ -102,8 +104,33 @@ _case = st.fixed_dictionaries({
 })
 
 
+@st.composite
+def _case_strategy(draw):
+    """base case; when an upstream certificate is present it often *shares names with the request* (the usual situation:
+    the upstream certificate is for the host the client asked for), in either GeneralName type, any case, as SAN or CN"""
+    case = draw(_base_case)
+    up = case["upstream"]
+    if up is not None and draw(st.integers(0, 2)) != 0:
+        idents = [x for x in (case["sni"], case["sockname"], case["server_addr"]) if x]
+        sans = list(up["sans"])
+        for _ in range(draw(st.integers(1, 2))):
+            pick = draw(st.sampled_from(idents))
+            kind, val = canon(pick)
+            text = pick if kind == "ip" else val  # ASCII text of the identity (A-label form for IDNs)
+            proper = ("ip:" + pick) if kind == "ip" else text
+            form = draw(st.sampled_from(["as-dns", "as-dns", "as-dns-upper", "both-types", "both-types-reversed", "proper", "as-cn"]))
+            new = {"as-dns": ["dnsname:" + text], "as-dns-upper": ["dnsname:" + text.upper()], "both-types": ["dnsname:" + text, proper],
+                   "both-types-reversed": [proper, "dnsname:" + text], "proper": [proper], "as-cn": []}[form]
+            if form == "as-cn":
+                up = dict(up, cn=text[-64:].lstrip(".-") or None)
+            pos = draw(st.integers(0, len(sans)))
+            sans[pos:pos] = [x for x in new if x not in sans]
+        case = dict(case, upstream=dict(up, sans=sans))
+    return case
+
+
 def strategy(ctx):
-    return _case
+    return _case_strategy()
 
 
 # ------------------------------------------------------------------------------------------------ canonical names
@@ -209,6 +236,8 @@ def upstream_cert(E, up):
             sans.append(x509.RFC822Name(s[6:]))
         elif s.startswith("uri:"):
             sans.append(x509.UniformResourceIdentifier(s[4:]))
+        elif s.startswith("dnsname:"):
+            sans.append(x509.DNSName(s[8:]))  # whatever the text looks like (IP literals included)
         else:
             sans.append(s)
     if "upca" not in E:
@@ -423,7 +452,9 @@ def check_case(case, ctx):
             ctx.fail("cn-too-long", "%d" % len(cns[0].value))
         cnc = canon(cns[0].value)
         # the CN is "str(first altname value)"; compare on canonical form, and literally for non-DNS/IP general names
-        if cnc not in allowed and not any(cns[0].value == v for k, v in allowed if k not in ("dns", "ip")):
+        # (an IP literal that the upstream certificate carries as dNSName stays text: compare that reading as well)
+        if cnc not in allowed and ("dns", cns[0].value.lower()) not in allowed \
+                and not any(cns[0].value == v for k, v in allowed if k not in ("dns", "ip")):
             ctx.fail("cn-names-foreign-identity", "CN %r not among %r" % (cns[0].value, sorted(allowed, key=repr)[:8]))
     orgs = presented.subject.get_attributes_for_oid(NameOID.ORGANIZATION_NAME)
     if orgs and not (use_up and up["org"] == orgs[0].value):
@@ -451,6 +482,7 @@ def _up_class(up):
         c = "cn-ip" if k == "ip" else ("cn-wild" if cn.startswith("*") else "cn-space" if " " in cn else
                                        "cn-long" if len(cn) >= 63 else "cn-idn" if any(ord(x) > 127 for x in cn) else "cn-host")
     kinds = sorted(set(("ip" if s.startswith("ip:") else "email" if s.startswith("email:") else "uri" if s.startswith("uri:")
+                        else ("ip-as-dns" if canon(s[8:])[0] == "ip" else "dns") if s.startswith("dnsname:")
                         else "wild" if s.startswith("*") else "dns") for s in up["sans"]))
     return "%s/san:%s/%s/%s" % (c, "+".join(kinds) or "-", "org" if up["org"] else "-", "crl" if up["crl"] else "-")
 
